@@ -187,6 +187,27 @@ class Checker(C.BaseChecker):
             for a in [x for x in acts if x.get("fid") == fid]:
                 if list(a["out"].columns) != want_active:
                     out.append(self.v("fit_columns", f"fit matrix columns {list(a['out'].columns)} != active columns {want_active}", **flags))
+                    continue
+                # whichever way rows are extracted for the estimator (fit or prediction): a row whose level was not seen in
+                # fitting must carry the equal share, never the all-zero pattern that means 'the absorbed level'
+                E = a.get("input_expanded")
+                if E is None or len(E) != len(a["out"]):
+                    continue
+                for fe, d in per_fe.items():
+                    act_cols = [f"{fe}_{x}" for x in d["active"]]
+                    inact_cols = [f"{fe}_{x}" for x in d["expanded"] if x not in d["active"] and f"{fe}_{x}" in E.columns]
+                    if not act_cols or not inact_cols:
+                        continue
+                    unseen_rows = E[inact_cols].to_numpy(dtype=float).sum(axis=1) > 0
+                    if not unseen_rows.any():
+                        continue
+                    got = a["out"][act_cols].to_numpy(dtype=float)[unseen_rows]
+                    k = len(act_cols)
+                    if not np.array_equal(got, np.full_like(got, 1.0 / (k + 1))):
+                        out.append(self.v("holdout_values", f"fixed effect {fe}: a row with a level not seen in fitting was extracted for the estimator with {got[0].tolist()} on the "
+                                                              f"{k} fitted levels, expected the equal share {1.0 / (k + 1)}", unseen_row=True, **flags))
+                        break
+                    st.probes["extracted_row_with_unseen_level_has_equal_share"] += 1
             for h in [x for x in holds if x.get("fid") == fid]:
                 Hin, Hout = h["input"], h["out"]
                 if list(Hout.columns) != want_active:
